@@ -98,6 +98,12 @@ impl<Out: ExchangeData, Item: ExchangeData> SideReceiver<Out, Item> {
         self.missing_terminate == 0
     }
 
+    /// Whether at least one replica of this side has already sent `StreamElement::Terminate`: the
+    /// stream is ending and no new iteration is going to start.
+    fn is_terminating(&self) -> bool {
+        self.missing_terminate < self.instances
+    }
+
     /// All the cached items have already been read.
     fn cache_finished(&self) -> bool {
         self.cache_pointer >= self.cache.len()
@@ -243,11 +249,21 @@ impl<OutL: ExchangeData, OutR: ExchangeData> BinaryStartReceiver<OutL, OutR> {
             } else {
                 Side::Left(self.left.recv(timeout))
             }
-        } else if self.left.cached && self.left.cache_full && !self.left.cache_finished() {
-            // The left side is cached, therefore we can access it immediately
+        } else if self.left.cached
+            && self.left.cache_full
+            && !self.left.cache_finished()
+            && !self.right.is_terminating()
+        {
+            // The left side is cached, therefore we can access it immediately (unless the other side
+            // is terminating: the first message was not the start of a new iteration)
             return Ok(self.left.next_cached_item());
-        } else if self.right.cached && self.right.cache_full && !self.right.cache_finished() {
-            // The right side is cached, therefore we can access it immediately
+        } else if self.right.cached
+            && self.right.cache_full
+            && !self.right.cache_finished()
+            && !self.left.is_terminating()
+        {
+            // The right side is cached, therefore we can access it immediately (unless the other side
+            // is terminating: the first message was not the start of a new iteration)
             return Ok(self.right.next_cached_item());
         } else if self.left.is_ended() {
             // There is nothing more to read from the left side (if cached, all the cache has
